@@ -13,10 +13,11 @@ OBLIGATIONS = [
     'C05.zero_divisor_not_invertible', 'C05.one_add_e_singular', 'C05.pow_loop', 'C05.neg_pow',
     'C05.hitzer_scalar_n1', 'C05.hitzer_scalar_n2', 'C05.hitzer_scalar_n3', 'C05.hitzer_scalar_n4', 'C05.hitzer_scalar_n5',
     'C05.scalar_of_components', 'C05.closed_form_correct', 'C05.hitzer_correct_n3', 'C05.hitzer_correct_n4', 'C05.hitzer_correct_n5', 'C05.hitzer_singular',
+    'C05.leftLaInv_solution_is_inverse', 'C05.leftLaInv_inverse_solves_system',
 ]
 PARTIAL = ['shirokov_partial: that the last U_k of the Shirokov (Faddeev-LeVerrier) recursion is scalar is not proved in Lean; the executable model of the '
            'algorithm is compared with the exact Gauss-Jordan inverse on every generated input. (The closed-form numerators n = 1..5 ARE proved: M*numerator is scalar.)',
-           'leftLaInv: np.linalg.solve/cond are parameters of the model']
+           'leftLaInv: proved that the linear system the code builds from the executable table has exactly the inverse as its solution (any storage order); np.linalg.solve/cond themselves are parameters of the model']
 RULE = ("signatures incl. degenerate, n<=5 quick (n<=8 thorough for the linear-algebra path); multivector families: dense small integers, versors "
         "(products of non-null integer vectors), scaled basis blades, scalar+pseudoscalar, near-scalars, all scaled by powers of two and by 0.1; "
         "singular families: 0, k(1+e) with e*e=1, null vectors. Non-trivial = non-scalar operand; distinct = distinct (signature, operand, method) text")
